@@ -332,7 +332,8 @@ def rule_r5(prog, res):
         c = prog.cls(cfq)
         f = c.methods.get(nm)
         for call in calls_in(f.node):
-            if call_name(call) != 'issubclass' or len(call.args) != 2:
+            if call_name(call) not in ('issubclass', 'is_substitutable') or \
+                    len(call.args) != 2:
                 continue
             if unparse(call.args[1]) != 'cls':
                 continue
@@ -538,6 +539,66 @@ def rule_r10(prog, res):
     res.floor('R10', 'namespace-map lookups in from_element', n, 1)
 
 
+# ------------------------------------------------------------------ R11
+def rule_r11(prog, res):
+    res.rule('R11', 'the element that carries a prefixed xsi:type value '
+             'declares that prefix')
+    x = prog.cls('spyne.protocol.xml:XmlDocument')
+    n = 0
+    for nm, f in sorted(x.methods.items()):
+        stores = [a for a in walk_no_defs(f.node) if isinstance(a, ast.Assign)
+                  and any(isinstance(t, ast.Subscript) and
+                          unparse(t.slice) == 'XSI_TYPE' for t in a.targets)]
+        if not stores:
+            continue
+        prefixed = []
+        for a in stores:
+            v = a.value
+            src = [v]
+            if isinstance(v, ast.Name):
+                src = [b.value for b in walk_no_defs(f.node)
+                       if isinstance(b, ast.Assign) and any(
+                           isinstance(t, ast.Name) and t.id == v.id
+                           for t in b.targets)]
+            if any('get_type_name_ns' in unparse(e) for e in src):
+                prefixed.append(a)
+        if not prefixed:
+            continue
+        n += 1
+        creators = [c for c in calls_in(f.node) if call_name(c) in (
+            'Element', 'SubElement', 'element', 'E')]
+        declared = [c for c in creators if any(k.arg == 'nsmap'
+                                               for k in c.keywords)]
+        on_existing = any(isinstance(t, ast.Subscript) and unparse(
+            t.value).startswith('parent') for a in prefixed
+            for t in a.targets)
+        where = '%s:%d' % (f.module.relpath, prefixed[0].lineno)
+        if on_existing and not creators:
+            res.unclass('R11', where, '%s sets xsi:type on an element it did '
+                        'not create (XmlData): the prefix declaration is the '
+                        'creator\'s business' % f.qualname)
+            continue
+        ok = bool(declared) and len(declared) == len(
+            [c for c in creators if call_name(c) != 'E' or True]) or (
+            bool(declared) and all(
+                call_name(c) == 'E' and guards_at(c, stop=f.node)
+                for c in creators if c not in declared))
+        res.ob('R11', where, '%s: xsi:type = get_type_name_ns(...); %d of %d '
+               'element creations pass nsmap=' % (f.qualname, len(declared),
+                                                 len(creators)),
+               'ok' if ok else 'VIOLATED')
+        if not ok:
+            res.finding('R11', '%s|prefix-undeclared' % f.qualname, where,
+                        '%s writes an xsi:type value of the form '
+                        'prefix:Name but creates the element without an '
+                        'nsmap declaring that prefix: lxml does not see '
+                        'prefixes inside attribute values, so for classes '
+                        'outside the target namespace the type marker does '
+                        'not resolve in the transmitted document' %
+                        f.qualname)
+    res.floor('R11', 'functions writing a prefixed xsi:type', n, 2)
+
+
 def run(prog, res, tier):
     res.run_rule(rule_r1, prog, res)
     res.run_rule(rule_r2, prog, res)
@@ -549,6 +610,7 @@ def run(prog, res, tier):
     res.run_rule(rule_r8, prog, res)
     res.run_rule(rule_r9, prog, res)
     res.run_rule(rule_r10, prog, res)
+    res.run_rule(rule_r11, prog, res)
 
 
 _C = 'spyne/model/complex.py'
@@ -558,6 +620,12 @@ _I = 'spyne/interface/_base.py'
 _H = 'spyne/protocol/dictdoc/hier.py'
 
 MUTANTS = [
+    Mutant('xsi-prefix-not-declared', 'R11', 'fire', _X,
+           in_func('XmlDocument.gen_members_parent',
+                   r"elt = etree\.SubElement\(parent, tag_name, "
+                   r"attrib=attrib,\s*nsmap=nsmap\)",
+                   "elt = etree.SubElement(parent, tag_name, attrib=attrib)",
+                   regex=True), 'prefix-undeclared'),
     Mutant('variants-register-as-subclasses', 'R9', 'fire', _C,
            in_func('ComplexModelMeta.__init__',
                    "if extends is not None and self.__orig__ is None:",
@@ -652,7 +720,7 @@ MUTANTS = [
            'registration'),
     Mutant('builtin-issubclass-xml', 'R5', 'fire', _X,
            in_func('XmlDocument.from_element',
-                   "if not self.issubclass(newclass, cls):",
+                   "if not self.is_substitutable(newclass, cls):",
                    "if not issubclass(newclass, cls):"), 'builtin-issubclass'),
     Mutant('builtin-issubclass-hier', 'R5', 'fire', _H,
            in_func('HierDictDocument._doc_to_object',
